@@ -4,7 +4,7 @@
    `h_run step s ops` is the model's history (call, result) for the call list `ops` from state `s`, with the final state;
    `outs h` are the items handed out in the history `h`, in time order. *)
 From Coq Require Import ZArith List Bool Sorting.Permutation.
-Require Import C12_Base C12_Pipe C12_MQ C12_Sync C12_Pri C12_Check C12_Order C12_MQBound C12_More.
+Require Import C12_Base C12_Pipe C12_MQ C12_Sync C12_Pri C12_Check C12_Order C12_MQBound C12_More C12_Runs.
 Import ListNotations.
 
 (* ================= the tie: whatever the driver accepts satisfies the monitor ================= *)
@@ -323,6 +323,34 @@ Theorem c12_ex_par_low_priority_first :
   pp_holds [(QPush 5%Z 1%Z, RDone, 1%Z, 2%Z); (QPush 1%Z 2%Z, RDone, 3%Z, 4%Z); (QPop, RItem 2%Z, 5%Z, 6%Z); (QPop, RItem 1%Z, 7%Z, 8%Z)] = false.
 Proof. exact ex_pp_low_priority_first. Qed.
 
+(* ================= backlog sizes x operation (C12_Runs.v) ================= *)
+(* for EVERY backlog (any length, any content, whatever came and went before): a prior add goes in front of the whole backlog, an
+   ordinary add behind it, and the drain hands out exactly that order *)
+Theorem c12_backlog_prior : forall (l : list Z) (x : Z) s, closed s = false -> items s = l ->
+  h_run p_step s (PPrior x :: repeat PPopAnyway (S (length l))) =
+  ((PPrior x, RDone) :: map (fun y => (PPopAnyway, RItem y)) (x :: l), set_items s []).
+Proof. exact p_backlog_prior. Qed.
+Theorem c12_backlog_add : forall (l : list Z) (x : Z) s, closed s = false -> items s = l -> full (cap s) (length l) = false ->
+  h_run p_step s (PAdd x :: repeat PPopAnyway (S (length l))) =
+  ((PAdd x, RDone) :: map (fun y => (PPopAnyway, RItem y)) (l ++ [x]), set_items s []).
+Proof. exact p_backlog_add. Qed.
+(* run-length cases are judged by expanding them: sound by the sequential simulation theorems *)
+Theorem c12_runs_pipe_sound : forall k n l, pl_accept k n l = true -> pl_holds n l = true.
+Proof. exact pl_sound. Qed.
+Theorem c12_runs_mq_sound : forall cm rm l, ml_accept cm rm l = true -> ml_holds cm rm l = true.
+Proof. exact ml_sound. Qed.
+Theorem c12_runs_sync_sound : forall l, sl_accept l = true -> sl_holds l = true.
+Proof. exact sl_sound. Qed.
+Theorem c12_runs_pri_sound : forall n l, ql_accept n l = true -> ql_holds n l = true.
+Proof. exact ql_sound. Qed.
+Theorem c12_ex_runs_ring_stale_mask :
+  pl_holds 0%Z [((PAdd 1%Z, RDone), 16%nat); ((PPrior 99%Z, RDone), 1%nat); ((PPopAnyway, RItem (-1)%Z), 1%nat)] = false.
+Proof. exact ex_runs_ring_stale_mask. Qed.
+Theorem c12_ex_runs_backlog_ok :
+  pl_accept KAsync 0%Z [((PAdd 1%Z, RDone), 19%nat); ((PPopAnyway, RItem 1%Z), 3%nat); ((PPrior 99%Z, RDone), 1%nat);
+                        ((PPopAnyway, RItem 99%Z), 1%nat); ((PPopAnyway, RItem 4%Z), 16%nat); ((PPopAnyway, RNotIssued), 2%nat)] = true.
+Proof. exact ex_runs_backlog_ok. Qed.
+
 (* ================= non-vacuity ================= *)
 Theorem c12_ex_pipe_accept :
   case_accept (CPipe KQ 2%Z [(PAdd 1%Z, RDone); (PAdd 2%Z, RDone); (PAdd 3%Z, RFull); (PPrior 9%Z, RDone); (PPop, RItem 9%Z);
@@ -422,6 +450,14 @@ Print Assumptions c12_anyway_is_add.
 Print Assumptions c12_held_anyway_released_by_pop.
 Print Assumptions c12_held_anyway_released_by_close.
 Print Assumptions c12_held_pop_released.
+Print Assumptions c12_backlog_prior.
+Print Assumptions c12_backlog_add.
+Print Assumptions c12_runs_pipe_sound.
+Print Assumptions c12_runs_mq_sound.
+Print Assumptions c12_runs_sync_sound.
+Print Assumptions c12_runs_pri_sound.
+Print Assumptions c12_ex_runs_ring_stale_mask.
+Print Assumptions c12_ex_runs_backlog_ok.
 Print Assumptions c12_ex_pipe_accept.
 Print Assumptions c12_ex_pipe_bound_off_by_one.
 Print Assumptions c12_ex_pipe_prior_at_back.
